@@ -13,10 +13,10 @@ GUARD   := -DDWGREP_VERIF
 CXX     := g++
 STD     := -std=c++14
 ifeq ($(FLAVOUR),san)
-OPT     := -O1 -g -fsanitize=address,undefined -fno-sanitize-recover=all -fno-omit-frame-pointer
+OPT     := -O2 -g -fsanitize=address,undefined -fno-sanitize-recover=all -fno-omit-frame-pointer
 LDSAN   := -fsanitize=address,undefined
 else
-OPT     := -O1 -g
+OPT     := -O2 -g
 LDSAN   :=
 endif
 CXXFLAGS := $(STD) $(OPT) -w $(GUARD) -I$(REPO)/libzwerg -I$(B)/gen -I$(REPO) -MMD -MP
